@@ -167,21 +167,28 @@ def dispatch_part(ctx, sc, rnd, jobs, labels, picked):
     if p.returncode != 0:
         raise core.Machinery('hooked collector failed: ' + p.stdout[-1500:])
     traces = [json.loads(x) for x in open(outp)]
-    nev = sum(len(t['ev']) for t in traces) // 8
-    # self-tests: a trace of a successful nested decode, corrupted three ways
-    base = next(t for t in traces if t['ev'][-8 + 2] == 1 and t['ev'].count(6) and len(t['ev']) >= 8 * 12)
+    W = 10
+    nev = sum(len(t['ev']) for t in traces) // W
+    # self-tests: a trace of a successful nested decode, corrupted in several ways
+    base = next(t for t in traces if t['ev'][-W + 2] == 1 and t['ev'].count(6) and len(t['ev']) >= W * 12)
     ev = base['ev']
-    vi = next(i for i in range(0, len(ev), 8) if ev[i] == 3 and ev[i + 2] == 6)
+    rows = range(0, len(ev), W)
+    vi = next(i for i in rows if ev[i] == 3 and ev[i + 2] == 6)
     st = []
     x = list(ev); x[vi + 3] = 2 if x[vi + 3] != 2 else 1
     st.append({'id': 10 ** 8, 'ev': x})                                  # another decoder kind
-    st.append({'id': 10 ** 8 + 1, 'ev': ev[:vi] + ev[vi + 8:]})          # the Value state never entered
-    xi = next(i for i in range(0, len(ev), 8) if ev[i] == 5)
+    st.append({'id': 10 ** 8 + 1, 'ev': ev[:vi] + ev[vi + W:]})          # the Value state never entered
+    xi = next(i for i in rows if ev[i] == 5)
     x = list(ev); x[xi + 2] = 0
     st.append({'id': 10 ** 8 + 2, 'ev': x})                              # returns no value
-    gi = next(i for i in range(0, len(ev), 8) if ev[i] == 3 and ev[i + 2] == 2)
+    gi = next(i for i in rows if ev[i] == 3 and ev[i + 2] == 2)
     x = list(ev); x[gi + 5] = 8; x[gi + 3] = 0
     st.append({'id': 10 ** 8 + 3, 'ev': x})                              # the tag read was an unknown universal one
+    x = list(ev); x[xi + 8] += 1
+    st.append({'id': 10 ** 8 + 4, 'ev': x})                              # a frame returns one octet late
+    ci = [i for i in rows if ev[i] == 1][1]
+    x = list(ev); x[ci + 8] += 1
+    st.append({'id': 10 ** 8 + 5, 'ev': x})                              # a member call starts one octet late
     with open(outp, 'a') as f:
         for t in st:
             f.write(json.dumps(t, separators=(',', ':')) + '\n')
@@ -189,14 +196,14 @@ def dispatch_part(ctx, sc, rnd, jobs, labels, picked):
     r = tlc.run(os.path.join(tlc.SPEC, 'Trace_DecoderSM.tla'), sc.file('tsm.cfg'), sc, env={'TRACE_FILE': outp}, timeout=3000,
                 heap='16g')
     ctx.add_tlc('dispatch trace acceptor', r)
-    want = nev + sum(len(t['ev']) // 8 for t in st) + len(traces) + len(st)
+    want = nev + sum(len(t['ev']) // W for t in st) + len(traces) + len(st)
     if not r.ok or r.distinct != want:
         raise core.Machinery('dispatch acceptor failed: distinct %s want %s %s\n%s' % (r.distinct, want, r.errors[:3], r.out[-1500:]))
     rej = [q for q in r.printed if isinstance(q, list) and len(q) == 4 and q[0] == 'REJECT']
-    if {q[1] for q in rej if q[1] >= 10 ** 8} != {10 ** 8 + i for i in range(4)}:
+    if {q[1] for q in rej if q[1] >= 10 ** 8} != {10 ** 8 + i for i in range(6)}:
         raise core.Machinery('dispatch acceptor self-test failed: %s' % [q for q in rej if q[1] >= 10 ** 8])
-    ctx.extra['dispatch_selftest'] = ('hook traces with a swapped decoder kind, a skipped Value state, a valueless return and an '
-                                      'altered tag are all rejected')
+    ctx.extra['dispatch_selftest'] = ('hook traces with a swapped decoder kind, a skipped Value state, a valueless return, an altered tag, a late '
+                                      'return and a late member call are all rejected')
     byid = {t['id']: t for t in traces}
     bad = set()
     for _, tid, j, clause in rej:
@@ -216,7 +223,7 @@ def dispatch_part(ctx, sc, rnd, jobs, labels, picked):
     ctx.traces += len(traces) - len(bad)
     ctx.evaluations += nev
     ctx.extra['dispatch'] = '%d decoder runs, %d hook events validated against spec/DecoderSM.tla' % (len(traces), nev)
-    ctx.sample({'dispatch trace (8-tuples kind,cid,a..f)': base['ev'][:64], 'input': sm[base['id'] - 1][4]})
+    ctx.sample({'dispatch trace (10-tuples kind,cid,a..f,pos,len)': base['ev'][:80], 'input': sm[base['id'] - 1][4]})
 
 
 def run(ctx):
